@@ -174,14 +174,14 @@ DOWNLOAD_LOCAL = transfer("download_local", PATHS, [
     ("skip_when_equal", f"ite(ghost('compare.result'), {same('copy')}, {once('copy')})"),
     ("pool_to_cache", f"implies(not {same('copy')}, ghost('copy.arg0', STR) == pool_path and ghost('copy.arg1', STR) == cache_path)"),
     ("never_deletes", f"{same('unlink')} and {same('symlink')}"),
-])
+], extra_exc=[("failed_download_destroys_nothing", f"{same('unlink')} and {same('symlink')}")])
 UPLOAD_LOCAL = transfer("upload_local", PATHS, [
     ("copy_only_under_lock", under_lock("copy")),
     ("compare_under_lock", under_lock("compare")),
     ("skip_when_equal", f"ite(ghost('compare.result'), {same('copy')}, {once('copy')})"),
     ("cache_to_pool", f"implies(not {same('copy')}, ghost('copy.arg0', STR) == cache_path and ghost('copy.arg1', STR) == pool_path)"),
     ("never_deletes", f"{same('unlink')} and {same('symlink')}"),
-])
+], extra_exc=[("failed_upload_destroys_nothing", f"{same('unlink')} and {same('symlink')}")])
 DELETE_LOCAL = transfer("delete_local", {"pool_path": STR, "params": Ref("Params")}, [
     ("unlink_only_under_lock", under_lock("unlink")),
     ("deletes_the_pool_file_once", f"{once('unlink')} and ghost('unlink.arg0', STR) == pool_path"),
